@@ -352,6 +352,14 @@ def compare(ex, st, op, a, b, node=None):
         if op == "IsNot":
             return (not r) if isinstance(r, bool) else z3.Not(r)
         return r
+    if isinstance(a0, OpaqueVecApp) or isinstance(b0, OpaqueVecApp):
+        if op not in ("Eq", "NotEq") or not (isinstance(a0, OpaqueVecApp) and isinstance(b0, OpaqueVecApp)) or a0.name != b0.name:
+            raise Unsupported("comparison involving an opaque function result")
+        used(ex, "opaque function %s: equal arguments (element by element) give equal results" % a0.name)
+        k = fresh(I, "k")
+        r = z3.And(to_z3(a0.arg.n) == to_z3(b0.arg.n),
+                   z3.ForAll([k], z3.Implies(z3.And(0 <= k, k < to_z3(a0.arg.n)), z3eq(a0.arg.at(k), b0.arg.at(k)))))
+        return z3.Not(r) if op == "NotEq" else r
     if type(a0).__name__ == "DTypeV" and type(b0).__name__ == "DTypeV":
         if op not in ("Eq", "NotEq"):
             raise Unsupported("ordering of dtypes")
@@ -1012,6 +1020,20 @@ def sf_use(ex, st, e):
     return [(st, z3.Implies(z3.And(pre + [z3.BoolVal(True)]), z3.And(post + [z3.BoolVal(True)])))]
 
 
+@special("Vec")
+def sf_vec(ex, st, e):
+    """Vec(n, lambda k: expr): the vector with those elements (spec language only)"""
+    n = ex.ev1(e.args[0], st)
+    lam = e.args[1]
+    name = _lam(ex, st, lam, 1)[0]
+
+    def at(k, st=st):
+        s2 = st.fork()
+        s2.env[name] = k
+        return ex.ev1(lam.body, s2)
+    return [(st, st.alloc(Vec(n, at, kind="array")))]
+
+
 @special("old")
 def sf_old(ex, st, e):
     old = st.ghost.get("__old__")
@@ -1080,7 +1102,7 @@ def b_len(ex, st, args, kwargs, node):
         return len(v)
     if isinstance(v, DictV):
         return len(v.d)
-    if isinstance(v, (Vec, Tab, Seq, IterV)):
+    if isinstance(v, (Vec, Tab, Seq, IterV, OpaqueVecApp)):
         return v.n
     if isinstance(v, str):
         return len(v)
